@@ -50,7 +50,7 @@ TENCC = {"f32": ("f32", "x{0}"), "f64": ("f64", "x{0}"), "opt_f32": ("opt(f32)",
 
 def model_op(op, alloc, half):
     w = op.split(" ")
-    if w[0] == "reuse":
+    if w[0] in ("reuse", "ishow", "tokshow"):
         return "nop"
     if w[0] == "tencc":
         d, f = TENCC[w[1]]
@@ -73,6 +73,10 @@ def exists(op, half, alloc=True):
     w = op.split(" ")
     if w[0] == "tovecs":
         return alloc                      # minicbor::to_vec needs alloc
+    if w[0] == "tokshow":
+        return half                       # Token / Tokenizer need half
+    if w[0] == "ishow":
+        return True
     return not (w[1] == "f16" and not half)
 
 
@@ -192,6 +196,15 @@ def corpus(rng, tier):
         calls = [rng.choice(["f", "f", f"u8:{rng.choice([0, 5, 24, 255])}", "str:" + gen.hexb(bytes(rng.randint(0x61, 0x7a) for _ in range(rng.choice([0, 1, 5, 24, 300]))))])
                  for _ in range(rng.randint(1, 6))]
         ops.append("tovecs " + " ".join(calls))
+    # the text form of integers and tokens (core::fmt only: it exists without alloc and without std, and must read the same there)
+    B = sorted({s_ for v in gen.boundaries(64) for s_ in (v, -v, -1 - v, -2 - v) if -2**64 <= s_ <= 2**64 - 1})
+    for v in B:
+        ops.append(f"ishow {v}")
+    for v in B:
+        h = gen.head(0, v) if v >= 0 else gen.head(1, -1 - v)
+        ops.append(f"tokshow {h.hex()}"); ops.append(f"tokshow 82{h.hex()}{h.hex()}")
+    for t in trees[:300 if q else 5000]:
+        ops.append(f"tokshow {W.enc(t).hex()}")
     return ops
 
 
@@ -280,6 +293,11 @@ def serde_corpus(rng, tier):
         ops.append(f"sde picky {W.enc(t).hex()}")
     for x in ["05", "f5", "f4", "f6", "f7", "6161", "20", "3903e7", "80", "a0", "4101", "fa3f800000", "fb3ff0000000000000", "c105", "1bffffffffffffffff", "9fff", "8205f6", "82f505"]:
         ops.append(f"sde picky {x}"); ops.append(f"sde picky2 {x}")
+    # a visitor that takes strings only as borrows from the input: a definite-length string is handed over borrowed everywhere
+    for t in trees[:150 if q else 3000]:
+        ops.append(f"sde borrowed {W.enc(t).hex()}")
+    for x in ["6161", "4101", "60", "40", "8261614101", "826161" + "6162", "7f6161ff", "5f4101ff", "82616105", "8205" + "4101", "78186161616161616161616161616161616161616161616161616161", "05", "f5", "62c3a9"]:
+        ops.append(f"sde borrowed {x}"); ops.append(f"sde borrowed2 {x}")
     # collect_seq / collect_map over iterators whose size hint is not tight: the same framing whether or not the bridge could buffer
     for n in (0, 1, 2, 3, 8, 24, 47):
         ops += [f"sser cseq {n}", f"sser cmap {min(n, 15)}", f"sser tup_cseq {n}"]
@@ -321,7 +339,7 @@ def streams(rng, tier):
         noalloc = "alloc" not in CUR[0] and "std" not in CUR[0]
         hx = w[2] if len(w) > 2 else ""
         has = lambda *bs: any(hx[i:i + 2] in bs for i in range(0, len(hx), 2))
-        if w[1] in ("any", "picky", "picky2"):
+        if w[1] in ("any", "picky", "picky2", "borrowed", "borrowed2"):
             # documented: without alloc the bridge refuses indefinite-length strings (type error at that item)
             if noalloc and has("5f", "7f") and impl.startswith("err type"):
                 return "ok"
@@ -374,9 +392,14 @@ def streams(rng, tier):
         def judge_cfg(op, impl, model, spec, alloc=alloc, half=half, name=name):
             if cross(op, name, alloc, half, impl) is not None:
                 return "violation"          # two feature configurations answer differently on the same input: a failing input of C20
+            w = op.split(" ")
+            if w[0] == "ishow":
+                # the number itself, from Int and from Token::Int alike (the rest of the line, the same under format flags, is compared across configurations)
+                return "ok" if impl.split(" ")[0] == w[1] and "token:" not in impl else "violation"
+            if w[0] == "tokshow":
+                return "violation" if impl in ("panic", "bad-op") or impl.startswith("crash") else "ok"
             if impl == model:
                 return "ok"
-            w = op.split(" ")
             if w[0] == "reuse":
                 # every step answered as on a fresh decoder (what a fresh decoder answers is what the `dec` ops compare with the model)
                 return "ok" if impl == f"{len(w[2].split(';'))} -" else "violation"
